@@ -3,6 +3,10 @@
 //! presentation, by an own exact Smith normal form. Uses nothing of the
 //! repository's fundamental_group / abelian_invariants code.
 
+use num_bigint::BigInt;
+use num_integer::Integer;
+use num_traits::{One, Signed, Zero};
+
 use crate::dsx::Sym;
 
 /// Invariant factors: ascending list of the factors > 1, followed by one 0
@@ -60,13 +64,13 @@ pub fn h1(s: &Sym) -> Result<Vec<u64>, String> {
             1
         }
     };
-    let mut rows: Vec<Vec<i128>> = vec![];
+    let mut rows: Vec<std::collections::BTreeMap<usize, i128>> = vec![];
     // mirrors: g^2 = 1
     for i in 0..=dim {
         for d in 1..=n {
             if s.op[i][d] == d && !dead[var[i][d]] {
-                let mut row = vec![0i128; ncols];
-                row[col_of[var[i][d]]] = 2;
+                let mut row = std::collections::BTreeMap::new();
+                row.insert(col_of[var[i][d]], 2i128);
                 rows.push(row);
             }
         }
@@ -76,14 +80,14 @@ pub fn h1(s: &Sym) -> Result<Vec<u64>, String> {
         for j in (i + 1)..=dim {
             for orb in s.orbits(&[i, j]) {
                 let d0 = orb[0];
-                let mut row = vec![0i128; ncols];
+                let mut row: std::collections::BTreeMap<usize, i128> = std::collections::BTreeMap::new();
                 let mut e = d0;
                 let mut r = 0usize;
                 loop {
                     for &idx in &[i, j] {
                         let x = var[idx][e];
                         if !dead[x] {
-                            row[col_of[x]] += sign(idx, e);
+                            *row.entry(col_of[x]).or_insert(0) += sign(idx, e);
                         }
                         e = s.op[idx][e];
                     }
@@ -104,16 +108,33 @@ pub fn h1(s: &Sym) -> Result<Vec<u64>, String> {
                     }
                     (2 / r) as i128
                 };
-                for x in row.iter_mut() {
+                for x in row.values_mut() {
                     *x *= v;
                 }
-                if row.iter().any(|&x| x != 0) {
+                row.retain(|_, x| *x != 0);
+                if !row.is_empty() {
                     rows.push(row);
                 }
             }
         }
     }
-    let diag = smith_diagonal(rows, ncols)?;
+    let diag = match invariant_factors_sparse_rows(rows.clone(), ncols) {
+        Ok(d) => d,
+        // overflow in the i128 sparse phase: arbitrary precision, dense
+        Err(_) => {
+            let dense: Vec<Vec<i128>> = rows
+                .iter()
+                .map(|r| {
+                    let mut d = vec![0i128; ncols];
+                    for (&c, &v) in r.iter() {
+                        d[c] = v;
+                    }
+                    d
+                })
+                .collect();
+            smith_diagonal(dense, ncols)?
+        }
+    };
     let mut out: Vec<u64> = vec![];
     let mut rank = 0;
     for d in diag {
@@ -138,26 +159,112 @@ pub fn index2_class_count(h1: &[u64]) -> u64 {
     1u64 << k
 }
 
+/// Same result as `smith_diagonal` (as a multiset of non-zero diagonal
+/// entries), but first removes all pivots equal to +-1 on a sparse
+/// representation: a unit pivot at (r, c) contributes a factor 1 and leaves
+/// the Schur complement, i.e. the other rows with column c eliminated. For
+/// cell complexes of manifolds almost everything goes this way and the dense
+/// Smith normal form only sees a tiny core.
+pub fn invariant_factors_sparse(dense: Vec<Vec<i128>>, ncols: usize) -> Result<Vec<i128>, String> {
+    let rows: Vec<std::collections::BTreeMap<usize, i128>> = dense
+        .into_iter()
+        .map(|r| r.into_iter().enumerate().filter(|&(_, v)| v != 0).collect())
+        .collect();
+    invariant_factors_sparse_rows(rows, ncols)
+}
+
+pub fn invariant_factors_sparse_rows(mut rows: Vec<std::collections::BTreeMap<usize, i128>>, ncols: usize) -> Result<Vec<i128>, String> {
+    use std::collections::{BTreeMap, BTreeSet};
+    let mut col_rows: Vec<BTreeSet<usize>> = vec![BTreeSet::new(); ncols];
+    for (i, r) in rows.iter().enumerate() {
+        for &c in r.keys() {
+            col_rows[c].insert(i);
+        }
+    }
+    let mut col_dead = vec![false; ncols];
+    let mut units = 0usize;
+    // rows that may contain a unit entry
+    let mut todo: BTreeSet<usize> = (0..rows.len()).collect();
+    while let Some(&r) = todo.iter().next() {
+        todo.remove(&r);
+        // sparsest column among the unit entries of this row
+        let pivot = rows[r].iter().filter(|(_, &v)| v == 1 || v == -1).min_by_key(|(&c, _)| col_rows[c].len()).map(|(&c, &v)| (c, v));
+        let (c, pv) = match pivot {
+            None => continue,
+            Some(p) => p,
+        };
+        let prow = std::mem::take(&mut rows[r]);
+        for &cc in prow.keys() {
+            col_rows[cc].remove(&r);
+        }
+        let others: Vec<usize> = col_rows[c].iter().cloned().collect();
+        for r2 in others {
+            let f = rows[r2][&c] * pv; // pv = +-1, so f * pv * pv = entry
+            for (&cc, &v) in prow.iter() {
+                let delta = ck(f.checked_mul(v))?;
+                let e = rows[r2].entry(cc).or_insert(0);
+                *e = ck(e.checked_sub(delta))?;
+                if *e == 0 {
+                    rows[r2].remove(&cc);
+                    col_rows[cc].remove(&r2);
+                } else {
+                    col_rows[cc].insert(r2);
+                }
+            }
+            todo.insert(r2);
+        }
+        col_dead[c] = true;
+        col_rows[c].clear();
+        units += 1;
+    }
+    // dense core
+    let live_cols: Vec<usize> = (0..ncols).filter(|&c| !col_dead[c]).collect();
+    let mut idx = vec![usize::MAX; ncols];
+    for (k, &c) in live_cols.iter().enumerate() {
+        idx[c] = k;
+    }
+    let core: Vec<Vec<i128>> = rows
+        .iter()
+        .filter(|r| !r.is_empty())
+        .map(|r| {
+            let mut d = vec![0i128; live_cols.len()];
+            for (&c, &v) in r.iter() {
+                d[idx[c]] = v;
+            }
+            d
+        })
+        .collect();
+    let mut diag = vec![1i128; units];
+    diag.extend(smith_diagonal(core, live_cols.len())?);
+    Ok(diag)
+}
+
 fn ck(x: Option<i128>) -> Result<i128, String> {
     x.ok_or_else(|| "i128 overflow in Smith normal form".to_string())
 }
 
 /// Diagonalise an integer matrix by row/column operations so that each
 /// diagonal entry divides the next; returns |diagonal| (length = #pivots).
-pub fn smith_diagonal(mut a: Vec<Vec<i128>>, ncols: usize) -> Result<Vec<i128>, String> {
+/// Arbitrary precision: naive integer elimination can swell far beyond i128
+/// even for 7x6 matrices with entries in -3..3 (found by the unit test).
+pub fn smith_diagonal_big(mut a: Vec<Vec<BigInt>>, ncols: usize) -> Vec<BigInt> {
     let nrows = a.len();
+    let zero = BigInt::zero();
     let mut diag = vec![];
     let mut t = 0;
     while t < nrows && t < ncols {
         // pivot: smallest non-zero |entry| in the remaining block
-        let mut best: Option<(usize, usize, i128)> = None;
+        let mut best: Option<(usize, usize, BigInt)> = None;
         'search: for r in t..nrows {
             for c in t..ncols {
-                let x = a[r][c].abs();
-                if x != 0 && best.map_or(true, |(_, _, b)| x < b) {
-                    best = Some((r, c, x));
-                    if x == 1 {
-                        break 'search;
+                if a[r][c] != zero {
+                    let x = a[r][c].abs();
+                    if best.as_ref().map_or(true, |(_, _, b)| &x < b) {
+                        let unit = x.is_one();
+                        best = Some((r, c, x));
+                        if unit {
+                            break 'search;
+                        }
                     }
                 }
             }
@@ -174,39 +281,37 @@ pub fn smith_diagonal(mut a: Vec<Vec<i128>>, ncols: usize) -> Result<Vec<i128>, 
         }
         loop {
             let mut dirty = false;
-            // clear column t below/above the pivot (rows > t only; rows < t are done)
             for r in (t + 1)..nrows {
-                if a[r][t] != 0 {
-                    let p = a[t][t];
-                    let q = a[r][t].div_euclid(p);
-                    if q != 0 {
-                        let cols: Vec<usize> = (t..ncols).filter(|&c| a[t][c] != 0).collect();
-                        for c in cols {
-                            let delta = ck(q.checked_mul(a[t][c]))?;
-                            a[r][c] = ck(a[r][c].checked_sub(delta))?;
+                if a[r][t] != zero {
+                    let p = a[t][t].clone();
+                    let q = a[r][t].div_floor(&p);
+                    if q != zero {
+                        for c in t..ncols {
+                            if a[t][c] != zero {
+                                let delta = &q * &a[t][c];
+                                a[r][c] -= delta;
+                            }
                         }
                     }
-                    if a[r][t] != 0 {
-                        // remainder smaller than pivot: swap and continue
+                    if a[r][t] != zero {
                         a.swap(t, r);
                         dirty = true;
                     }
                 }
             }
-            // clear row t right of the pivot
             for c in (t + 1)..ncols {
-                if a[t][c] != 0 {
-                    let p = a[t][t];
-                    let q = a[t][c].div_euclid(p);
-                    if q != 0 {
+                if a[t][c] != zero {
+                    let p = a[t][t].clone();
+                    let q = a[t][c].div_floor(&p);
+                    if q != zero {
                         for r in t..nrows {
-                            if a[r][t] != 0 {
-                                let delta = ck(q.checked_mul(a[r][t]))?;
-                                a[r][c] = ck(a[r][c].checked_sub(delta))?;
+                            if a[r][t] != zero {
+                                let delta = &q * &a[r][t];
+                                a[r][c] -= delta;
                             }
                         }
                     }
-                    if a[t][c] != 0 {
+                    if a[t][c] != zero {
                         for row in a.iter_mut().skip(t) {
                             row.swap(t, c);
                         }
@@ -217,12 +322,11 @@ pub fn smith_diagonal(mut a: Vec<Vec<i128>>, ncols: usize) -> Result<Vec<i128>, 
             if dirty {
                 continue;
             }
-            // divisibility: pivot must divide everything that is left
-            let p = a[t][t];
+            let p = a[t][t].clone();
             let mut bad: Option<usize> = None;
             'div: for r in (t + 1)..nrows {
                 for c in (t + 1)..ncols {
-                    if a[r][c] % p != 0 {
+                    if !(&a[r][c] % &p).is_zero() {
                         bad = Some(r);
                         break 'div;
                     }
@@ -232,8 +336,8 @@ pub fn smith_diagonal(mut a: Vec<Vec<i128>>, ncols: usize) -> Result<Vec<i128>, 
                 None => break,
                 Some(r) => {
                     for c in t..ncols {
-                        let x = a[r][c];
-                        a[t][c] = ck(a[t][c].checked_add(x))?;
+                        let x = a[r][c].clone();
+                        a[t][c] += x;
                     }
                 }
             }
@@ -241,7 +345,17 @@ pub fn smith_diagonal(mut a: Vec<Vec<i128>>, ncols: usize) -> Result<Vec<i128>, 
         diag.push(a[t][t].abs());
         t += 1;
     }
-    Ok(diag)
+    diag
+}
+
+/// i128 front end of `smith_diagonal_big`; `Err` only if a factor does not
+/// fit into i128.
+pub fn smith_diagonal(a: Vec<Vec<i128>>, ncols: usize) -> Result<Vec<i128>, String> {
+    let big: Vec<Vec<BigInt>> = a.into_iter().map(|r| r.into_iter().map(BigInt::from).collect()).collect();
+    smith_diagonal_big(big, ncols)
+        .into_iter()
+        .map(|d| i128::try_from(d).map_err(|_| "invariant factor does not fit into i128".to_string()))
+        .collect()
 }
 
 #[cfg(test)]
@@ -257,6 +371,22 @@ mod tests {
     }
 
     #[test]
+    fn sparse_agrees_with_dense() {
+        let mut rng = crate::prng::SplitMix64::new(7);
+        for _ in 0..300 {
+            let (nr, nc) = (1 + rng.below(7), 1 + rng.below(7));
+            let m: Vec<Vec<i128>> = (0..nr).map(|_| (0..nc).map(|_| rng.below(7) as i128 - 3).collect()).collect();
+            let mut a: Vec<i128> = smith_diagonal(m.clone(), nc).unwrap().into_iter().filter(|&x| x != 0).collect();
+            let mut b: Vec<i128> = invariant_factors_sparse(m, nc).unwrap().into_iter().filter(|&x| x != 0).collect();
+            a.sort();
+            b.sort();
+            // compare as abelian groups: product and the full factor lists after normalisation
+            let norm = |v: &Vec<i128>| -> Vec<i128> { smith_diagonal(v.iter().enumerate().map(|(i, &x)| { let mut r = vec![0; v.len()]; r[i] = x; r }).collect(), v.len()).unwrap() };
+            assert_eq!(norm(&a), norm(&b));
+        }
+    }
+
+    #[test]
     fn h1_cube_orbifold() {
         // orbifold group of the cubic tiling symbol: finite abelianisation
         let s = Sym::parse("<1.1:1 3:1,1,1,1:4,3,4>").unwrap();
@@ -264,3 +394,4 @@ mod tests {
         assert_eq!(h, vec![2, 2, 2]);
     }
 }
+
